@@ -857,6 +857,12 @@ theorem later_lesser_flagged_partial (before after : List (Hist × Nat)) (earlie
   out_of_sequence_with_newest_flagged before after later earlier now hmem hnewest huniq (by omega)
     (Or.inl ⟨hlater, hless⟩)
 
+/-- non-vacuity of `later_lesser_flagged_partial`: its three list hypotheses are satisfiable and the conclusion is the computed one -/
+example : (run .empty ([(⟨100, 10, 10⟩, 1000)] ++ ((⟨200, 9, 10⟩ : Hist), 1000) :: [])).flagged = true :=
+  later_lesser_flagged_partial [(⟨100, 10, 10⟩, 1000)] [] ⟨100, 10, 10⟩ ⟨200, 9, 10⟩ 1000 (by simp)
+    (by intro x hx; simp at hx; subst hx; exact Nat.le_refl _) (by intro x hx _; simp at hx; exact hx) (by decide) (Or.inl (by decide))
+example : (run .empty [(⟨100, 10, 10⟩, 1000), (⟨200, 9, 10⟩, 1000)]).flagged = true := by decide
+
 end NewestOnly
 
 /-! ## known finding K-q: the checker is unreachable (composed system client fetch → dispatch → checker) -/
@@ -954,6 +960,21 @@ theorem quote_for_nameless_address_is_for_zero (selfKey : Key) (keyBytes : List 
   ⟨_, rfl, rfl⟩
 
 end GetStoreQuote
+
+/-- non-vacuity of `get_store_quote_reply` (toy scheme, node key 3): a named address gets a quote for its name that verifies
+for peer 3 and not for peer 4; a nameless one a quote for the zero name; a stored record `RecordExists`; no metrics `failed` -/
+example : match SafeNet.QuoteDuty.getStoreQuote toyScheme 3 [3] (some (List.replicate 32 7)) (.metrics default false) 5 0 [] with
+    | .quote q => q.content = List.replicate 32 7 ∧ checkSigned toyScheme toyIds q 3 = true ∧ checkSigned toyScheme toyIds q 4 = false
+    | _ => False := by
+  have h := get_store_quote_reply toyScheme toyIds 3 [3] (some (List.replicate 32 7)) (.metrics default false) 5 0 [] rfl rfl
+  simp only [SafeNet.QuoteDuty.getStoreQuote] at h ⊢
+  exact ⟨h.2.1, h.2.2.2.2.1, h.2.2.2.2.2 4 (by decide)⟩
+example : (match SafeNet.QuoteDuty.getStoreQuote toyScheme 3 [3] none (.metrics default false) 5 0 [] with
+    | .quote q => q.content | _ => []) = SafeNet.QuoteDuty.zeroName := rfl
+example : (match SafeNet.QuoteDuty.getStoreQuote toyScheme 3 [3] none (.metrics default true) 5 0 [] with
+    | .recordExists => true | _ => false) = true := rfl
+example : (match SafeNet.QuoteDuty.getStoreQuote toyScheme 3 [3] none .dropped 5 0 [] with
+    | .failed => true | _ => false) = true := rfl
 
 /-! ## consequences of K-i for the checker, the expiry boundary, the two clock readings (observations) -/
 
